@@ -5,7 +5,7 @@
    version's context, is the response signed by the delegated key, is the midpoint inside the window,
    does the proof bind THIS request under the protocol's hash width) and whether it was the honest
    response. The client processes responses in order and stops at the first failure. *)
-EXTENDS Naturals, Sequences, FiniteSets, TLC, Json, IOUtils, TLCExt
+EXTENDS Request, FiniteSets, Json, IOUtils, TLCExt
 
 Rec_ == ndJsonDeserialize(IOEnv.TRACE)
 VARIABLE l
@@ -27,6 +27,9 @@ RunReasons(e) ==
         \cup (IF allHonest /\ (e.exit # 0 \/ e.printed # e.nreq) THEN {"honest_rejected"} ELSE {})
         \cup (IF allHonest /\ e.exit = 0 /\ ~e.times_ok THEN {"wrong_time_printed"} ELSE {})
         \cup (IF Len(e.served) # e.nreq THEN {"client_sent_fewer_requests"} ELSE {})
+        \* every request the client generates is one an honest server is obliged to answer (Request.tla: right size, framing,
+        \* version list, nonce length, SRV of the pinned key if one was given)
+        \cup (IF e.key # "bad" /\ \E i \in 1..Len(e.reqf) : Classify(e.reqf[i]) # "must" THEN {"client_request_malformed"} ELSE {})
 
 Bad(reasons) == IF reasons = {} THEN TRUE ELSE TLCSet(2, TLCGet(2) \o <<[i |-> l, why |-> reasons]>>)
 
